@@ -95,13 +95,13 @@ theorem slide_sub_empty (dirs : List Dir) (s : Sq) (occ : BB) (t : Sq) (h : mem 
 
 theorem bishop_count (T : SliderTables) (s : Sq) (occ : BB) : BB.count (bishopAttacks s occ) ≤ 13 := by
   rw [T.bishop]
-  unfold bishopSpec
+  unfold Geometry.bishopSpec
   rw [← slide_eq_spec]
   exact Nat.le_trans (count_mono _ _ (slide_sub_empty _ s occ)) (bishop_empty_count s)
 
 theorem rook_count (T : SliderTables) (s : Sq) (occ : BB) : BB.count (rookAttacks s occ) ≤ 14 := by
   rw [T.rook]
-  unfold rookSpec
+  unfold Geometry.rookSpec
   rw [← slide_eq_spec]
   exact Nat.le_trans (count_mono _ _ (slide_sub_empty _ s occ)) (rook_empty_count s)
 
@@ -253,7 +253,7 @@ theorem cnt_cons_some (b : Board) (f : Piece → Bool) (s : Sq) (l : List Sq) (p
   simp only [Option.any_some]
   split <;> simp
 
-def incStep (b : Board) (acc : Game.Inc) (s : Sq) : Game.Inc :=
+def incStep (b : Board) (acc : Inc) (s : Sq) : Inc :=
   match b.pieceAt s with
   | some pc => { phase := acc.phase + phaseOf pc.kind, pst := acc.pst + pst pc.player pc.kind s }
   | none => acc
@@ -301,6 +301,261 @@ theorem pstFold (b : Board) : ∀ (l : List Sq) (m e ph : Int), ∃ m' e' ph',
         simp only [cnt_cons_some b _ s l _ hpa]
         cases k <;> cases pl <;> simp only [clsLo, clsHi] at hb <;>
           simp [isP, isO, isK] <;> omega
+
+/-! ### bitboard counts are class counts -/
+
+def sqs : List Sq := List.finRange 64
+
+theorem count_piecesOf (b : Board) (hc : Consistent b) (k : PieceKind) (pl : Player) :
+    BB.count (b.byKind k &&& b.occFor pl) = cnt b (fun pc => pc == ⟨k, pl⟩) sqs := by
+  unfold BB.count BB.toList cnt sqs
+  congr 1
+  apply List.filter_congr
+  intro s _
+  cases hm : mem (b.byKind k &&& b.occFor pl) s with
+  | true =>
+    rw [(mem_kindOf b hc k pl s).1 hm]
+    simp
+  | false =>
+    cases hp : b.pieceAt s with
+    | none => simp
+    | some pc =>
+      simp only [Option.any_some]
+      cases hq : (pc == (⟨k, pl⟩ : Piece))
+      · rfl
+      · exfalso
+        have : b.pieceAt s = some ⟨k, pl⟩ := by rw [hp, eq_of_beq hq]
+        rw [(mem_kindOf b hc k pl s).2 this] at hm
+        cases hm
+
+theorem cnt_split4 (b : Board) (pl : Player) : ∀ l : List Sq,
+    cnt b (isO pl) l = cnt b (fun pc => pc == ⟨.knight, pl⟩) l + cnt b (fun pc => pc == ⟨.bishop, pl⟩) l +
+      cnt b (fun pc => pc == ⟨.rook, pl⟩) l + cnt b (fun pc => pc == ⟨.queen, pl⟩) l := by
+  intro l
+  induction l with
+  | nil => simp [cnt]
+  | cons s l ih =>
+    cases hpa : b.pieceAt s with
+    | none => simp only [cnt_cons_none b _ s l hpa]; exact ih
+    | some pc =>
+      simp only [cnt_cons_some b _ s l pc hpa]
+      obtain ⟨k, p⟩ := pc
+      cases k <;> cases p <;> cases pl <;> simp [isO] <;> omega
+
+theorem cnt_isP (b : Board) (pl : Player) : ∀ l : List Sq, cnt b (isP pl) l = cnt b (fun pc => pc == ⟨.pawn, pl⟩) l := by
+  intro l
+  induction l with
+  | nil => simp [cnt]
+  | cons s l ih =>
+    cases hpa : b.pieceAt s with
+    | none => simp only [cnt_cons_none b _ s l hpa]; exact ih
+    | some pc =>
+      simp only [cnt_cons_some b _ s l pc hpa]
+      obtain ⟨k, p⟩ := pc
+      cases k <;> cases p <;> cases pl <;> simp [isP] <;> omega
+
+theorem cnt_isK (b : Board) (pl : Player) : ∀ l : List Sq, cnt b (isK pl) l = cnt b (fun pc => pc == ⟨.king, pl⟩) l := by
+  intro l
+  induction l with
+  | nil => simp [cnt]
+  | cons s l ih =>
+    cases hpa : b.pieceAt s with
+    | none => simp only [cnt_cons_none b _ s l hpa]; exact ih
+    | some pc =>
+      simp only [cnt_cons_some b _ s l pc hpa]
+      obtain ⟨k, p⟩ := pc
+      cases k <;> cases p <;> cases pl <;> simp [isK] <;> omega
+
+/-! ### the terms of the evaluation -/
+
+theorem mobility_side (T : SliderTables) (b : Board) (hc : Consistent b) (pl : Player)
+    (hk : cnt b (isK pl.other) sqs = 1) :
+    ∃ m e, mobilityFor b pl = some (pack m e) ∧
+      -100 * (cnt b (isO pl) sqs : Int) - 210 ≤ m ∧ m ≤ 640 * (cnt b (isO pl) sqs : Int) + 550 ∧
+      -100 * (cnt b (isO pl) sqs : Int) - 210 ≤ e ∧ e ≤ 640 * (cnt b (isO pl) sqs : Int) + 550 := by
+  obtain ⟨s9, s14, s15, s28, sk⟩ := mob_sizes
+  have hN := mobFold (safeSquares b pl) Gen.knightMobility knightAttacks (-100) 640 knightMob_in
+    (BB.toList (b.knightsOf pl)) (fun p _ => by
+      rw [s9]; exact Nat.lt_of_le_of_lt (Nat.le_trans (count_and_le _ _) (knight_count p)) (by decide)) 0 0 0#64
+  obtain ⟨m1, e1, a1, f1, b1, b2, b3, b4⟩ := hN
+  have hB := mobFold (safeSquares b pl) Gen.bishopMobility (fun p => bishopAttacks p b.occupancy) (-100) 640 bishopMob_in
+    (BB.toList (b.bishopsOf pl)) (fun p _ => by
+      rw [s14]; exact Nat.lt_of_le_of_lt (Nat.le_trans (count_and_le _ _) (bishop_count T p _)) (by decide)) m1 e1 a1
+  obtain ⟨m2, e2, a2, f2, c1, c2, c3, c4⟩ := hB
+  have hR := mobFold (safeSquares b pl) Gen.rookMobility (fun p => rookAttacks p b.occupancy) (-100) 640 rookMob_in
+    (BB.toList (b.rooksOf pl)) (fun p _ => by
+      rw [s15]; exact Nat.lt_of_le_of_lt (Nat.le_trans (count_and_le _ _) (rook_count T p _)) (by decide)) m2 e2 a2
+  obtain ⟨m3, e3, a3, f3, d1, d2, d3, d4⟩ := hR
+  have hQ := mobFold (safeSquares b pl) Gen.queenMobility
+    (fun p => bishopAttacks p b.occupancy ||| rookAttacks p b.occupancy) (-100) 640 queenMob_in
+    (BB.toList (b.queensOf pl)) (fun p _ => by
+      rw [s28]
+      have h1 := count_and_le (bishopAttacks p b.occupancy ||| rookAttacks p b.occupancy) (safeSquares b pl)
+      have h2 := count_or_le (bishopAttacks p b.occupancy) (rookAttacks p b.occupancy)
+      have h3 := bishop_count T p b.occupancy
+      have h4 := rook_count T p b.occupancy
+      omega) m3 e3 a3
+  obtain ⟨m4, e4, a4, f4, g1, g2, g3, g4⟩ := hQ
+  -- the enemy king
+  have hkc : BB.count (b.kingOf pl.other) = 1 := by
+    have := count_piecesOf b hc .king pl.other
+    rw [← cnt_isK] at this
+    rw [show b.kingOf pl.other = b.byKind .king &&& b.occFor pl.other from rfl, this, hk]
+  obtain ⟨ek, hek⟩ : ∃ ek, BB.lsbSq? (b.kingOf pl.other) = some ek := by
+    unfold BB.lsbSq?
+    unfold BB.count at hkc
+    cases hl : BB.toList (b.kingOf pl.other) with
+    | nil => rw [hl] at hkc; cases hkc
+    | cons x xs => exact ⟨x, rfl⟩
+  have hidx : BB.count (a4 &&& kingAttacks ek) < Gen.attackedKingSquares.size := by
+    rw [sk]
+    have h1 : BB.count (a4 &&& kingAttacks ek) ≤ BB.count (kingAttacks ek) :=
+      count_mono _ _ fun t h => by rw [mem_and, Bool.and_eq_true] at h; exact h.2
+    have := king_count ek
+    omega
+  obtain ⟨v, hv⟩ : ∃ v, Gen.attackedKingSquares[BB.count (a4 &&& kingAttacks ek)]? = some v :=
+    ⟨_, Array.getElem?_eq_getElem hidx⟩
+  have hvb := tblIn_get kingAtt_in _ v hv
+  -- lengths
+  have lN := count_piecesOf b hc .knight pl
+  have lB := count_piecesOf b hc .bishop pl
+  have lR := count_piecesOf b hc .rook pl
+  have lQ := count_piecesOf b hc .queen pl
+  have l4 := cnt_split4 b pl sqs
+  have eN : (BB.toList (b.knightsOf pl)).length = cnt b (fun pc => pc == ⟨.knight, pl⟩) sqs := lN
+  have eB : (BB.toList (b.bishopsOf pl)).length = cnt b (fun pc => pc == ⟨.bishop, pl⟩) sqs := lB
+  have eR : (BB.toList (b.rooksOf pl)).length = cnt b (fun pc => pc == ⟨.rook, pl⟩) sqs := lR
+  have eQ : (BB.toList (b.queensOf pl)).length = cnt b (fun pc => pc == ⟨.queen, pl⟩) sqs := lQ
+  refine ⟨m4 - v.1, e4 - v.2, ?_, ?_, ?_, ?_, ?_⟩
+  · unfold mobilityFor
+    simp only [Option.bind_eq_bind, Option.pure_def]
+    have z : (some ((0 : Int), 0#64) : Option (Int × BB)) = some (pack 0 0, 0#64) := by rw [pack_zero]
+    rw [z, f1, f2, f3, f4]
+    simp only [Option.bind_some, hek, hv]
+    unfold packP
+    rw [pack_sub]
+  all_goals
+    rw [eN] at b1 b2 b3 b4
+    rw [eB] at c1 c2 c3 c4
+    rw [eR] at d1 d2 d3 d4
+    rw [eQ] at g1 g2 g3 g4
+    omega
+
+theorem bishopPair_bounds (b : Board) : ∃ m e, bishopPair b = pack m e ∧ -100 ≤ m ∧ m ≤ 100 ∧ -100 ≤ e ∧ e ≤ 100 := by
+  have hb : 0 ≤ (Gen.bishopPairBonus.getD 0 (0, 0)).1 ∧ (Gen.bishopPairBonus.getD 0 (0, 0)).1 ≤ 100 ∧
+      0 ≤ (Gen.bishopPairBonus.getD 0 (0, 0)).2 ∧ (Gen.bishopPairBonus.getD 0 (0, 0)).2 ≤ 100 := by decide +kernel
+  unfold bishopPair packP
+  simp only
+  generalize Gen.bishopPairBonus.getD 0 (0, 0) = x at hb
+  split <;> split
+  · exact ⟨0, 0, by unfold pack; omega, by omega, by omega, by omega, by omega⟩
+  · exact ⟨x.1, x.2, by unfold pack; omega, by omega, by omega, by omega, by omega⟩
+  · exact ⟨-x.1, -x.2, by unfold pack; omega, by omega, by omega, by omega, by omega⟩
+  · exact ⟨0, 0, by unfold pack; omega, by omega, by omega, by omega, by omega⟩
+
+theorem passed_side (b : Board) (hc : Consistent b) (pl : Player) (lo hi : Int) (hlo : lo ≤ 0) (hhi : 0 ≤ hi)
+    (hT : ∀ s : Sq, lo ≤ (passedPair pl s).1 ∧ (passedPair pl s).1 ≤ hi ∧ lo ≤ (passedPair pl s).2 ∧ (passedPair pl s).2 ≤ hi) :
+    ∃ m e, passedBonus b pl = pack m e ∧
+      lo * (cnt b (isP pl) sqs : Int) ≤ m ∧ m ≤ hi * (cnt b (isP pl) sqs : Int) ∧
+      lo * (cnt b (isP pl) sqs : Int) ≤ e ∧ e ≤ hi * (cnt b (isP pl) sqs : Int) := by
+  obtain ⟨m, e, hf, h1, h2, h3, h4⟩ := passedFold b pl lo hi hlo hhi hT (BB.toList (b.pawnsOf pl)) 0 0
+  have len : (BB.toList (b.pawnsOf pl)).length = cnt b (isP pl) sqs := by
+    rw [cnt_isP]; exact count_piecesOf b hc .pawn pl
+  refine ⟨m, e, ?_, ?_, ?_, ?_, ?_⟩
+  · unfold passedBonus
+    rw [← pack_zero]
+    exact hf
+  all_goals (rw [len] at h1 h2 h3 h4; omega)
+
+/-- **eval_total_bounded** -/
+theorem eval_total_bounded (T : SliderTables) (g : Game) (hc : Consistent g.board)
+    (hinc : g.inc = Game.incInit theCfg g.board)
+    (hKw : cnt g.board (isK .white) sqs = 1) (hKb : cnt g.board (isK .black) sqs = 1)
+    (hW : cnt g.board (isP .white) sqs + cnt g.board (isO .white) sqs + cnt g.board (isK .white) sqs ≤ 16)
+    (hB : cnt g.board (isP .black) sqs + cnt g.board (isO .black) sqs + cnt g.board (isK .black) sqs ≤ 16) :
+    ∃ v, eval g = some v ∧ -31130 ≤ v ∧ v ≤ 31130 := by
+  obtain ⟨pm, pe, ph, hpst, hph, p1, p2, p3, p4⟩ := pstFold g.board sqs 0 0 0
+  obtain ⟨wm, we, hwm, w1, w2, w3, w4⟩ := mobility_side T g.board hc .white hKb
+  obtain ⟨bm, be, hbm, k1, k2, k3, k4⟩ := mobility_side T g.board hc .black hKw
+  obtain ⟨qm, qe, hq, q1, q2, q3, q4⟩ := bishopPair_bounds g.board
+  obtain ⟨um, ue, hu, u1, u2, u3, u4⟩ := passed_side g.board hc .white (-80) 200 (by omega) (by omega)
+    (fun s => (passedPair_in s).1)
+  obtain ⟨vm, ve, hv, v1, v2, v3, v4⟩ := passed_side g.board hc .black (-200) 80 (by omega) (by omega)
+    (fun s => (passedPair_in s).2)
+  have hincv : g.inc = ⟨ph, pack pm pe⟩ := by
+    rw [hinc, incInit_eq, ← pack_zero]; exact hpst
+  have hmob : mobility g.board = some (pack (wm - bm) (we - be)) := by
+    unfold mobility
+    simp only [Option.bind_eq_bind, Option.pure_def]
+    rw [hwm, hbm]
+    simp only [Option.bind_some]
+    rw [pack_sub]
+  have htotal : g.inc.pst + bishopPair g.board + pack (wm - bm) (we - be) + pawnStructure g.board =
+      pack (pm + qm + (wm - bm) + (um + vm)) (pe + qe + (we - be) + (ue + ve)) := by
+    unfold pawnStructure
+    rw [hincv, hq, hu, hv]
+    simp only [pack_add]
+  have hM : -31130 ≤ pm + qm + (wm - bm) + (um + vm) ∧ pm + qm + (wm - bm) + (um + vm) ≤ 31130 := by
+    simp only [Int.zero_add] at p1 p2
+    constructor <;> omega
+  have hE : -31130 ≤ pe + qe + (we - be) + (ue + ve) ∧ pe + qe + (we - be) + (ue + ve) ≤ 31130 := by
+    simp only [Int.zero_add] at p3 p4
+    constructor <;> omega
+  obtain ⟨a, ha, ha1, ha2⟩ := forPhase_in _ _ g.inc.phase (-31130) 31130 (by omega) (by omega) hM hE
+    (by rw [hincv]; exact hph)
+  have habs : absoluteEval g = some a := by
+    unfold absoluteEval
+    simp only [Option.bind_eq_bind, Option.pure_def]
+    rw [hmob]
+    simp only [Option.bind_some]
+    rw [htotal]
+    exact ha
+  unfold eval
+  simp only [Option.bind_eq_bind, Option.pure_def]
+  rw [habs]
+  simp only [Option.bind_some]
+  cases g.player
+  · exact ⟨a, rfl, ha1, ha2⟩
+  · simp only
+    rw [if_neg (by omega)]
+    exact ⟨-a, rfl, by omega, by omega⟩
+
+/-! ### from the `Legal` predicate -/
+
+open Rules in
+theorem count_eq_cnt (b : Board) (f : Piece → Bool) : Rules.count b.squares f = cnt b f sqs := rfl
+
+theorem cnt_player (b : Board) (pl : Player) : ∀ l : List Sq,
+    cnt b (fun pc => pc.player == pl) l = cnt b (isP pl) l + cnt b (isO pl) l + cnt b (isK pl) l := by
+  intro l
+  induction l with
+  | nil => simp [cnt]
+  | cons s l ih =>
+    cases hpa : b.pieceAt s with
+    | none => simp only [cnt_cons_none b _ s l hpa]; exact ih
+    | some pc =>
+      simp only [cnt_cons_some b _ s l pc hpa]
+      obtain ⟨k, p⟩ := pc
+      cases k <;> cases p <;> cases pl <;> simp [isP, isO, isK] <;> omega
+
+open Rules in
+/-- **eval_bounded** for the decidable `Legal` predicate -/
+theorem eval_bounded_legal (T : SliderTables) (g : Game) (hc : Consistent g.board)
+    (hl : legalPos (ofGame g) = true) (hinc : g.inc = Game.incInit theCfg g.board) :
+    ∃ v, eval g = some v ∧ -31900 < v ∧ v < 31900 := by
+  unfold legalPos at hl
+  simp only [Bool.and_eq_true] at hl
+  obtain ⟨⟨⟨⟨⟨⟨⟨⟨hkings, _⟩, _⟩, _⟩, _⟩, hmw⟩, hmb⟩, _⟩, _⟩ := hl
+  simp only [Bool.and_eq_true, beq_iff_eq, decide_eq_true_eq] at hkings hmw hmb
+  have hKw : cnt g.board (isK .white) sqs = 1 := by rw [cnt_isK]; exact hkings.1
+  have hKb : cnt g.board (isK .black) sqs = 1 := by rw [cnt_isK]; exact hkings.2
+  have hW := cnt_player g.board .white sqs
+  have hB := cnt_player g.board .black sqs
+  have h16w : cnt g.board (fun pc => pc.player == .white) sqs ≤ 16 := hmw.1
+  have h16b : cnt g.board (fun pc => pc.player == .black) sqs ≤ 16 := hmb.1
+  obtain ⟨v, hv, h1, h2⟩ := eval_total_bounded T g hc hinc hKw hKb (by omega) (by omega)
+  exact ⟨v, hv, by omega, by omega⟩
+
 
 end Eval
 end Tcheran
